@@ -598,9 +598,40 @@ def _neutralise_step_budget():
     return undo
 
 
+def _neutralise_range_unsafe_nary():
+    """n-ary sums and products computed exactly (Fractions) and rounded once: no partial sum / product can leave
+    the double range when the result does not."""
+    import smoothmath._private.math_functions as mf
+    from fractions import Fraction
+    cur_add, cur_mul = mf.add, mf.multiply
+
+    def add(*args):
+        try:
+            return float(sum((Fraction(a) for a in args), Fraction(0)))
+        except (ValueError, OverflowError, TypeError):
+            return cur_add(*args)
+
+    def multiply(*args):
+        try:
+            if any(a == 0 for a in args):
+                return 0
+            out = Fraction(1)
+            for a in args:
+                out *= Fraction(a)
+            return float(out)
+        except (ValueError, OverflowError, TypeError):
+            return cur_mul(*args)
+    mf.add, mf.multiply = add, multiply
+
+    def undo():
+        mf.add, mf.multiply = cur_add, cur_mul
+    return undo
+
+
 NEUTRALISERS = {
     "even_root_of_even_power": _neutralise_even_root_of_even_power,
     "unbounded_reduction_steps": _neutralise_step_budget,
+    "range_safe_nary": _neutralise_range_unsafe_nary,
 }
 
 
